@@ -75,6 +75,8 @@ STRENGTHENED = {
  "C19-g": "after temporary-first orders (temp then twin, unload, third and fourth create) were added for every seeded wallet type",
  "C27-g": "after 17 proxy / override header variants (X-Forwarded-Host, Forwarded, X-Real-IP, X-Forwarded-Proto, X-HTTP-Method-Override, ...) that must not change any verdict were added to the one-deviation sweeps",
  "C28-g": "after one of two conflicting pending spends was confirmed in a block (new op: the publisher executes a block of named pool transactions, no refresh) before the pool-dependent views were queried",
+ "C17-h": "after the C17 harness also built Bitcoin-coin bip44 / xpub wallets (coin type chosen by the low bit of the case seed) and the verify op compared every entry's address with the address the wallet's coin decoder gives its public key",
+ "C04-h": "after the `strip-txs` mutation (a valid next block with its whole transaction list removed, body hash stale or recomputed, sent to the arbitrating publisher half of the time) was added to the block mutations",
  "C07-b": "after the balance view (GetBalanceOfAddresses) joined the whole-state digest and the model",
 }
 rows = []
